@@ -819,7 +819,28 @@ async fn history_h2(desc: impl Into<Target>, reqs: &[Req]) -> Result<Vec<Wire>, 
 /// `flags`: only report whether every request of the history was answered on each protocol
 fn pair(x: &X, flags: bool) -> X {
     if flags {
-        return pair_once(x, flags);
+        // "not every request was answered" is a verdict only if three runs (fresh hosts, fresh connections) agree on it
+        let mut first: Option<String> = None;
+        for round in 0..3 {
+            let out = pair_once(x, flags);
+            let txt = {
+                let mut t = String::new();
+                out.write(&mut t);
+                t
+            };
+            if txt == "(L (N 1) (N 1))" || txt.starts_with("(L (N 93)") || txt.starts_with("(L (N 9") {
+                return out;
+            }
+            match &first {
+                Some(f) if *f != txt => return fail(0, "open: the outcome of this history is not stable".into()),
+                _ => first = Some(txt),
+            }
+            if round == 2 {
+                return out;
+            }
+            std::thread::sleep(Duration::from_millis(40));
+        }
+        return X::bad();
     }
     persistent(|| pair_once(x, flags))
 }
@@ -838,6 +859,14 @@ fn pair_once(x: &X, flags: bool) -> X {
             let w2 = history_h2(db, &reqs).await;
             // answered = every request got a response head and body, and the connection's framing was intact afterwards
             let all = |w: &Result<Vec<Wire>, (usize, String)>| matches!(w, Ok(v) if v.iter().all(|w| matches!(w, Wire::Resp { .. })));
+            // (a time-out or a connection that could not be opened says nothing about the server)
+            for w in [&w1, &w2] {
+                if let Err((i, e)) = w {
+                    if is_trouble(e) {
+                        return fail(*i, e.clone());
+                    }
+                }
+            }
             return X::L(vec![X::bool(all(&w1)), X::bool(all(&w2))]);
         }
         let w1 = match w1 {
